@@ -103,16 +103,19 @@ Theorem C06_refuted_when_interrupt :
     (outer_handler_catches_base = false -> ends_in (r_emitted (exec E p s)) = 0).
 Proof. intros Hn E. exists wit_interrupt, s0. exact (interrupt_not_recorded B D sd sc H gen_facts E Hn). Qed.
 
-(* sweep metadata that is not JSON: the driver drops pipeline_spec_canonical, which the schema requires *)
+(* sweep metadata that is not JSON: node 0 starts but gets no SER, and the trace has no schema-valid
+   pipeline_start (either nothing is emitted, or the driver drops pipeline_spec_canonical, which the schema requires) *)
 Theorem C06_refuted_when_metadata :
   metadata_json_safe = false ->
-  forall E, exists p s st,
-    hd_error (r_emitted (exec E p s)) = Some st /\ schema_ok gen_layout gen_schema st = false /\
-    sers_in (r_emitted (exec E p s)) = [] /\ started p s = [0].
+  forall E, exists p s,
+    started p s = [0] /\ sers_in (r_emitted (exec E p s)) = [] /\
+    (forall st, hd_error (r_emitted (exec E p s)) = Some st -> schema_ok gen_layout gen_schema st = false).
 Proof.
   intros Hm E. exists wit_opaque, s0.
-  destruct (opaque_changes_outcome B D sd sc H gen_facts E Hm) as (_ & _ & (pd & rid & q & ts & Hh) & Hs & Hst).
-  eexists. split; [exact Hh|]. split; [|auto].
+  destruct (opaque_changes_outcome B D sd sc H gen_facts E Hm) as (_ & _ & Hh & Hs & Hst).
+  split; [exact Hst|]. split; [exact Hs|].
+  intros st Hst'. destruct Hh as [Hh|(pd & rid & q & ts & Hh)]; rewrite Hh in Hst'; [discriminate|].
+  injection Hst' as <-.
   apply schema_rejects_dropped_spec; [reflexivity|eexists; split; reflexivity].
 Qed.
 
@@ -147,7 +150,7 @@ End C06.
 
 (* ---- non-vacuity ------------------------------------------------------------------------------------------------ *)
 Definition ex_env : env := mkEnv 7 0 false (fun k => Z.of_nat k) 0 true.
-Definition ex_facts_good : facts := mkFacts true true true true true true true true true true.
+Definition ex_facts_good : facts := mkFacts true true true true true true true true true true false.
 Definition ex_run (F : facts) (p : list tnode) (s : state) : result (data + ctx) :=
   execute_traced (data + ctx) (data + ctx) (fun d => inl d) (fun c => inr c) (fun x => x) F ex_env p s.
 
@@ -174,6 +177,17 @@ Proof. vm_compute. reflexivity. Qed.
 Example ex_base_only : base_only (perr "KeyboardInterrupt") = true /\ base_only (perr "ValueError") = false.
 Proof. vm_compute. auto. Qed.
 
+(* the defects found by this check are repaired on the current tree (fix commits): hard obligations *)
+Lemma now_instantiate_inside_try : instantiate_inside_try = true.
+Proof. reflexivity. Qed.
+Lemma now_node_handler_catches_base : node_handler_catches_base = true.
+Proof. reflexivity. Qed.
+Lemma now_outer_handler_catches_base : outer_handler_catches_base = true.
+Proof. reflexivity. Qed.
+Lemma now_metadata_json_safe : metadata_json_safe = true.
+Proof. reflexivity. Qed.
+Lemma now_region_sound : region_sound.
+Proof. repeat split. Qed.
 Print Assumptions C06_trace_well_formed.
 Print Assumptions C06_exception_unchanged.
 Print Assumptions C06_driver_closed_after.
